@@ -1868,7 +1868,7 @@ func urlSafeSpec(b64 string) string { return urlSafeBase64(b64) }
 //@   wiring
 //@   requires cfg.PeriodsPerHour != nil ==> 1 <= *cfg.PeriodsPerHour && *cfg.PeriodsPerHour <= 3600
 //@   requires a.SegmentDurMS > 0
-//@   keep divzero: 3600 / *cfg.PeriodsPerHour; periodDur * 1000 % a.SegmentDurMS; wTimes.startTimeMS / (periodDur * 1000); wTimes.nowMS / (periodDur * 1000)
+//@   keep divzero: 3600 / *cfg.PeriodsPerHour; periodDur * 1000 % a.SegmentDurMS; wTimes.startTimeMS / (periodDur * 1000); wTimes.nowMS / (periodDur * 1000); endMS / (periodDur * 1000)
 //@   ensures rejectsNonMultiple: result == nil && cfg.PeriodsPerHour != nil ==> ((3600 / *cfg.PeriodsPerHour) * 1000) % a.SegmentDurMS == 0
 //@   store periodStartS := requires borderAtWallClockMultiple: periodStartS == pNr*periodDur - cfg.StartTimeS
 //@   store periodEndS := requires endAtNextMultiple: periodEndS == (pNr+1)*periodDur - cfg.StartTimeS && periodStartS == max(0, pNr*periodDur - cfg.StartTimeS)
@@ -1877,7 +1877,13 @@ func urlSafeSpec(b64 string) string { return urlSafeBase64(b64) }
 //@   callsite reduceS requires periodBounds: arg_timescale == timeScale && arg_periodStartS == uint64(periodStartS) && arg_periodEndS == uint64(periodEndS)
 //@   callsite Ptr[uint64] requires ptoIsPeriodStart: arg0 == uint64(periodStartS*timeScale)
 //@   callsite Ptr[uint32] requires startNumberIsFirstOfPeriod: arg0 == uint32(periodStartS*timeScale/segDur + specStartNr(cfg))
-//@   loop 1 invariant startPeriodNr == wTimes.startTimeMS / (periodDur*1000) && endPeriodNr == wTimes.nowMS / (periodDur*1000) && pNr >= startPeriodNr && periodDur == 3600 / *cfg.PeriodsPerHour
+//@   store nowPeriodNr := requires periodHoldingNow: nowPeriodNr == wTimes.nowMS / (periodDur*1000)
+//@   store endPeriodNr := requires rangeReachesNewestAvailable: endPeriodNr >= nowPeriodNr && endPeriodNr == endMS / (periodDur*1000) && endMS >= wTimes.nowMS
+//@   store endPeriodNr := requires timelineRangeUpToJustBeforeNowPlusOffset: cfg.AvailabilityTimeOffsetS > 0.0 && cfg.AvailabilityTimeOffsetS != math.Inf(1) && (cfg.SegTimelineFlag || cfg.SegTimelineNrFlag) ==> endMS == max(wTimes.nowMS, wTimes.nowMS + int(cfg.AvailabilityTimeOffsetS*1000.0) - 1)
+//@   store endPeriodNr := requires numberRangeByAverageDuration: cfg.AvailabilityTimeOffsetS > 0.0 && cfg.AvailabilityTimeOffsetS != math.Inf(1) && !cfg.SegTimelineFlag && !cfg.SegTimelineNrFlag ==> endMS == max(wTimes.nowMS, wTimes.nowMS + int(cfg.AvailabilityTimeOffsetS*1000.0) - a.SegmentDurMS)
+//@   store endPeriodNr := requires noOffsetNoLookAhead: !(cfg.AvailabilityTimeOffsetS > 0.0 && cfg.AvailabilityTimeOffsetS != math.Inf(1)) ==> endMS == wTimes.nowMS
+//@   callsite periodIsEmpty requires onlyComingPeriodsMayBeLeftOut: pNr > nowPeriodNr && arg0 == p
+//@   loop 1 invariant startPeriodNr == wTimes.startTimeMS / (periodDur*1000) && nowPeriodNr == wTimes.nowMS / (periodDur*1000) && endPeriodNr >= nowPeriodNr && pNr >= startPeriodNr && periodDur == 3600 / *cfg.PeriodsPerHour
 
 // reduceS: slices the segments of one period out of a SegmentTimeline.  Proved: memory safety
 // and termination for every list of non-nil entries; the scan only stops early at a segment
